@@ -262,6 +262,8 @@ class World(object):
         self.seq = 0
         self.seq_lock = threading.Lock()
         self.block_guard = 0.25
+        self.max_connects = 40      # per case; more is a reconnect loop
+        self.runaway = False
         self.scheduler = None
         self.resolved = []
 
@@ -275,6 +277,12 @@ class World(object):
             self.scheduler.yield_point(kind)
 
     def accept(self, addr):
+        if len(self.connects) >= self.max_connects:
+            # an endless reconnect loop: stop it deterministically
+            self.runaway = True
+            self.connects.append((addr, 'refused'))
+            raise ConnectionRefusedError(errno.ECONNREFUSED,
+                                         'harness: too many connections')
         beh = self.servers.pop(0) if self.servers else self.default
         if beh is None or beh == 'refuse':
             self.connects.append((addr, 'refused'))
@@ -401,7 +409,8 @@ class World(object):
             if not any(t.is_alive() for t in self.threads
                        if t.ident is not None) and \
                     all(t.ident is not None for t in self.threads):
-                return 'blocked' if self.blocked else 'done'
+                return 'runaway' if self.runaway else \
+                    'blocked' if self.blocked else 'done'
             sig = (self.seq, sum(l.reads for l in self.links),
                    len(self.threads))
             idle = sum(l.idle for l in self.links)
